@@ -98,11 +98,30 @@ class Package:
         self._index(rel, ast.parse(src))
         return self
 
+    def extended(self, rel, src):
+        """A copy of this package with one more module (user-level code written against the package, e.g. a custom edge class)."""
+        import copy as _copy
+        other = _copy.copy(self)
+        for k, v in list(vars(self).items()):
+            if isinstance(v, dict):
+                setattr(other, k, dict(v))
+        other._index(rel, ast.parse(src))
+        return other
+
+    def func_key(self, name, rel=None):
+        """Key in self.funcs of the module-level function `name` as seen from module `rel` (its own definition first)."""
+        if rel is not None:
+            k = self.module_funcs.get(rel, {}).get(name)
+            if k is not None:
+                return k
+        return name if name in self.funcs else None
+
     def _tables(self):
         self.units = {}       # relpath -> dict(sha256, lines, tree, source)
         self.classes = {}     # class name -> ClassInfo  (nested classes as Outer.Inner)
         self.funcs = {}       # function name -> FunctionDef (module level)
         self.func_module = {}
+        self.module_funcs = {}    # module rel -> {local function name: key in self.funcs}
         self.module_consts = {}   # module rel -> {name: ast expr}
         self.module_imports = {}  # module rel -> {local name: dotted origin}
         self.module_classes = {}  # module rel -> {local class name: unique class name}  (private helper classes may share a name)
@@ -148,10 +167,12 @@ class Package:
         elif isinstance(st, ast.FunctionDef):
             st._gs_module = rel
             st._gs_class = None
-            if st.name in self.funcs:
-                raise AnalysisError("duplicate module-level function name %s (%s, %s)" % (st.name, rel, self.func_module[st.name]))
-            self.funcs[st.name] = st
-            self.func_module[st.name] = rel
+            key = st.name
+            if key in self.funcs:
+                key = "%s@%s" % (st.name, rel)       # helpers of different modules may share a name: each module sees its own
+            self.funcs[key] = st
+            self.func_module[key] = rel
+            self.module_funcs.setdefault(rel, {})[st.name] = key
         elif isinstance(st, ast.Assign) and len(st.targets) == 1 and isinstance(st.targets[0], ast.Name):
             consts[st.targets[0].id] = st.value
         elif isinstance(st, ast.Assign) and len(st.targets) == 1 and isinstance(st.targets[0], ast.Tuple) and \
@@ -238,7 +259,12 @@ class Package:
             if attr in ci.props:
                 return ("prop", ci.props[attr], c)
             if attr in ci.consts:
-                return ("const", ci.consts[attr], c)
+                e = ci.consts[attr]
+                if isinstance(e, ast.Name) and e.id in ci.methods:
+                    return ("method", ci.methods[e.id], c)        # `alias = method` in the class body: the same function object
+                if isinstance(e, ast.Name) and e.id in ci.props:
+                    return ("prop", ci.props[e.id], c)
+                return ("const", e, c)
         return None
 
     def setter(self, clsname, attr):
